@@ -341,6 +341,12 @@ func (m *monitors) finalChecks(res *Result) {
 	}
 	an := linz.Check(m.ops, best.lists)
 	for _, a := range an {
+		if s.opt.AllowDup && a.Kind == "duplicate-apply" {
+			// a duplicated Propose message of a NoOP-session proposal is applied twice by
+			// design (at-least-once); only the C01 mode, without duplication, decides this
+			m.count("noop_session_duplicates_under_message_duplication", 1)
+			continue
+		}
 		m.sink.Violation("C01", "history:"+a.Kind, a.What, map[string]interface{}{
 			"anomaly": a, "options": s.opt, "final": best.lists,
 			"replay": "the execution is a deterministic function of options",
